@@ -12,21 +12,27 @@ class Stepper:
         self.turn = None
         self.local = threading.local()
         self.threads = {}
+        self.free = False      # free_run(): every thread runs on without parking
+        self.adopted = {}      # thread object -> key: threads not spawned here (e.g. an Agent's own thread) that are stepped too
 
     # ---- called from stepped threads ------------------------------------
     def point(self, name):
         key = getattr(self.local, "key", None)
         if key is None:
-            return                      # not a stepped thread: never blocks
+            key = self.adopted.get(threading.current_thread())
+            if key is None:
+                return                  # not a stepped thread: never blocks
+            self.local.key = key
         allowed = getattr(self.local, "allowed", None)
-        if allowed is not None and name not in allowed:
+        if (allowed is not None and name not in allowed) or self.free:
             return
         with self.cv:
             self.state[key] = ("parked", name)
             self.cv.notify_all()
-            while self.turn != key:
+            while self.turn != key and not self.free:
                 self.cv.wait()
-            self.turn = None
+            if self.turn == key:
+                self.turn = None
             self.state[key] = ("running", None)
         nxt = getattr(self.local, "next_allowed", None)
         if nxt is not None:
@@ -54,8 +60,27 @@ class Stepper:
         t.start()
         self.wait_parked(key)
 
+    def adopt(self, thread, key):
+        """step a thread created by the code under test (call before it reaches its first point)"""
+        self.adopted[thread] = key
+        with self.cv:
+            self.state[key] = ("running", None)
+
+    def mark_done(self, key):
+        with self.cv:
+            self.state[key] = ("done", None)
+            self.cv.notify_all()
+
     # ---- called from the harness ----------------------------------------
-    def wait_parked(self, key, timeout=20):
+    def free_run(self, timeout=10):
+        """give up stepping: every stepped thread runs to its end (used when the code no longer follows the model's steps)"""
+        with self.cv:
+            self.free = True
+            self.cv.notify_all()
+        for t in list(self.threads.values()):
+            t.join(timeout)
+
+    def wait_parked(self, key, timeout=2):
         with self.cv:
             ok = self.cv.wait_for(lambda: self.state[key][0] != "running", timeout)
         if not ok:
